@@ -22,6 +22,10 @@ Oracle clauses (violation key = C01:<clause>:...):
                 encoded (module logger installed), or its clone is wrong / not independent
   reused        an object that was encoded before and then unpack()s other bytes / has its public
                 fields assigned does not end up == a fresh object, or encodes stale bytes
+  edited        encode -> same-length in-place edit of a list member -> encode is not the encoding
+                of the edited value (stale cache)
+  wire          a legal encoding produced by the reference encoder (e.g. NXM entry with an explicit
+                all-ones mask) does not decode -> re-encode to itself / len() disagrees
 A case stops at the first length/layout failure (decoding a wrong encoding proves nothing); a
 decode clause that failed through one entry point is not reported again for the next one.
 Exceptions without any pox frame are harness errors, never violations.
@@ -1967,8 +1971,15 @@ def run (cfg):
               "== a fresh object, re-encode to the same bytes, len agrees), then has every public field of the "
               "reference object assigned (must encode the reference bytes), and the case's own object unpack()s the "
               "reference bytes; plus flow-mods with prerequisite-inconsistent matches, for which only 'encoding does "
-              "not fail, lengths agree, decode consumes all' is claimed. distinct = (kind, verdict, length, 8-bit "
-              "checksum) digests"
+              "not fail, lengths agree, decode consumes all' is claimed; EDITED - every object with a list-valued "
+              "member of >= 2 elements (actions, ports, queues, properties, stats bodies, learn specs, bundle slaves) "
+              "is encoded, the list is changed in place keeping its length (reversed / element replaced / element's "
+              "fields assigned; quick: one of the three per case by checksum, thorough: all + reverse-then-replace) "
+              "and encoded again: must equal a fresh object with the edited value. (9) wire-origin NXM: for every NXM "
+              "class the reference encoder's wire forms {no mask, explicit all-ones mask, zero mask, partial masks} x "
+              "values, alone, in nx_match lists, and inside NXT_FLOW_MOD / NXT_PACKET_IN: decode consumes exactly the "
+              "bytes, len() agrees, re-encode gives the same bytes. distinct = (kind, verdict, length, 8-bit checksum) "
+              "digests"
               % (len(KINDS), len([k for k in KINDS if k.startswith('nx')]),
                  "2" if cfg.quick else "3", 3 if thorough else 2, 3 if thorough else 2))
   rep.bound = dict(deviations=2 if cfg.quick else 3, payload="0..1500", action_seq_len=3 if thorough else 2,
